@@ -26,6 +26,10 @@ class Unknown(Exception):
     pass
 
 
+class Effect(Unknown):
+    """a write the model cannot follow (through a projection, or inside an unmodelled callee that received a `&mut`): never ignored"""
+
+
 class Panic(Exception):
     pass
 
@@ -87,6 +91,12 @@ def equal(a, b):
         raise Unknown('equality of %r values' % (a[0],))
     if isinstance(a, (bool, int)) and isinstance(b, (bool, int)):
         return a == b
+    for x, y in ((a, b), (b, a)):
+        # an atom whose name ends in `!0` stands for any value that is not zero
+        if isinstance(x, tuple) and x[:1] == ('atom',) and x[1].endswith('!0') and isinstance(y, int) and not isinstance(y, bool) and y == 0:
+            return False
+        if isinstance(x, tuple) and x[:1] == ('len',):
+            raise Unknown('a length compared with something that is not a constant')
     raise Unknown('equality of %r and %r' % (a, b))
 
 
@@ -228,14 +238,24 @@ class CaseInterp:
         if k == 'binop':
             l, r = self.operand(rv['l']), self.operand(rv['r'])
             op = rv['op']
-            if op == 'Eq':
-                return equal(l, r)
-            if op == 'Ne':
-                return not equal(l, r)
+            if op in ('Eq', 'Ne') and not any(isinstance(x, tuple) and x[:1] == ('len',) for x in (l, r)):
+                return equal(l, r) if op == 'Eq' else not equal(l, r)
             if isinstance(l, bool) and isinstance(r, bool) and op in ('BitAnd', 'BitOr', 'BitXor'):
                 return {'BitAnd': l and r, 'BitOr': l or r, 'BitXor': l != r}[op]
             if isinstance(l, int) and isinstance(r, int) and not isinstance(l, bool) and op in ('Lt', 'Le', 'Gt', 'Ge'):
                 return {'Lt': l < r, 'Le': l <= r, 'Gt': l > r, 'Ge': l >= r}[op]
+            if isinstance(l, int) and isinstance(r, int) and not isinstance(l, bool) and not isinstance(r, bool):
+                if op in ('Add', 'AddUnchecked'):
+                    return l + r
+                if op == 'AddWithOverflow':
+                    return ('tuple', [l + r, False])
+            # the length of a modelled container is only known to be zero or not zero
+            for x, y, o in ((l, r, op), (r, l, {'Lt': 'Gt', 'Gt': 'Lt', 'Le': 'Ge', 'Ge': 'Le'}.get(op, op))):
+                if isinstance(x, tuple) and x[:1] == ('len',) and isinstance(x[1], tuple) and x[1][:1] == ('array',) and isinstance(y, int) and not isinstance(y, bool):
+                    empty = not x[1][1]
+                    table = {('Eq', 0): empty, ('Ne', 0): not empty, ('Gt', 0): not empty, ('Ge', 1): not empty, ('Lt', 1): empty, ('Le', 0): empty}
+                    if (o, y) in table:
+                        return table[(o, y)]
             raise Unknown('binary %s' % op)
         if k == 'discr':
             v = self.place(rv['place'])
@@ -459,10 +479,30 @@ class CaseInterp:
             if len(cands) == 1 and self.depth <= 4:
                 try:
                     return CaseInterp(self.F, cands[0], args, self.ext, self.depth + 1).run()
+                except Effect:
+                    raise
                 except Unknown:
                     if c.name not in TRANSPARENT:
+                        if self.passes_mut(t):
+                            raise Effect('crate-local callee %s outside the fragment received a `&mut`' % short)
                         raise
-        return self.named_call(c.name, short, args, c)
+        try:
+            return self.named_call(c.name, short, args, c)
+        except Effect:
+            raise
+        except Unknown as e:
+            if self.passes_mut(t):
+                raise Effect('unmodelled callee %s received a `&mut` (%s)' % (short, e))
+            raise
+
+    def passes_mut(self, t):
+        for x in t['args']:
+            if x['k'] in ('copy', 'move') and not x['place']['proj']:
+                l = x['place']['local']
+                ty = self.b.locals[l].get('ty', '') if l < len(self.b.locals) else ''
+                if ty.startswith('&mut') or ty.startswith('*mut'):
+                    return True
+        return False
 
     # ---- the walk
     def run(self):
@@ -473,9 +513,11 @@ class CaseInterp:
             for st in bl['stmts']:
                 if st['k'] == 'assign':
                     if st['place']['proj']:
-                        raise Unknown('write through a projection')
+                        raise Effect('write through a projection')
                     try:
                         self.vals[st['place']['local']] = self.rvalue(st['rv'])
+                    except Effect:
+                        raise
                     except Unknown as e:
                         # a value that is never looked at does not matter; looking at it raises Unknown then
                         self.vals.pop(st['place']['local'], None)
@@ -483,7 +525,7 @@ class CaseInterp:
                         if TRACE:
                             print('  [case] %s bb%d _%d: %s' % (b.qname, bb, st['place']['local'], e))
                 elif st['k'] == 'set_discr':
-                    raise Unknown('set_discriminant')
+                    raise Effect('set_discriminant')
             t = bl['term']
             k = t['k']
             if k == 'return':
@@ -499,6 +541,8 @@ class CaseInterp:
                     raise Panic()  # a call that does not return: panic, abort, exit
                 try:
                     v = self.call(t)
+                except Effect:
+                    raise
                 except Unknown as e:
                     if t['target'] is None:
                         raise
@@ -509,7 +553,7 @@ class CaseInterp:
                 if t['target'] is None:
                     raise Panic()
                 if t['dest']['proj']:
-                    raise Unknown('call result written through a projection')
+                    raise Effect('call result written through a projection')
                 if v is None:
                     self.vals.pop(t['dest']['local'], None)
                 else:
